@@ -37,6 +37,10 @@ extern int vf_exc;          /* 0 = no exception in flight; VF_EXC_* otherwise (e
 #else
 #define VF_CANARY_POINT ((void)0)
 #endif
+vf_str nondet_vf_str(void);
+#ifndef VF_STRLIT
+#define VF_STRLIT(s) nondet_vf_str() /* string literal: an arbitrary id (string contents are outside the subset) */
+#endif
 /* constant-trip loops of the models, unrolled by the preprocessor (goto-instrument --dfcc --apply-loop-contracts rejects
    writes to the counter of a loop that has no loop contract): VF_FOR_CAP(stmt using i) runs stmt for i = 0 .. VF_CAP-1 */
 #if VF_CAP > 32
